@@ -355,6 +355,67 @@ func linear(s *Sym) (string, int64) {
 	return s.Key(), 0
 }
 
+// addendOfMadeLen: base is make([]T, a+b+…) and low is one of the addends, the others being lengths or non-negative
+// constants: low ≤ len(base).
+func addendOfMadeLen(base, low *Sym) bool {
+	if base == nil || low == nil || base.K != sFresh || len(base.Kids) != 1 {
+		return false
+	}
+	if _, ok := base.V.(*ssa.MakeSlice); !ok {
+		return false
+	}
+	var terms []*Sym
+	var walk func(x *Sym)
+	walk = func(x *Sym) {
+		if x != nil && x.K == sBin && x.Op == token.ADD {
+			walk(x.A)
+			walk(x.B)
+			return
+		}
+		terms = append(terms, x)
+	}
+	walk(base.Kids[0])
+	found := false
+	for _, t := range terms {
+		if t == nil {
+			return false
+		}
+		if !found && t.Key() == low.Key() {
+			found = true
+			continue
+		}
+		switch {
+		case t.K == sLen:
+		case t.K == sConst && t.C != nil && t.C.Kind() == constant.Int && constant.Sign(t.C) >= 0:
+		default:
+			return false
+		}
+	}
+	return found
+}
+
+// minInt: a lower bound of a non-negative integer term (a constant, a length, a sum of those).
+func minInt(st *pstate, x *Sym, depth int) int64 {
+	if x == nil || depth > 6 {
+		return 0
+	}
+	switch x.K {
+	case sConst:
+		if x.C != nil && x.C.Kind() == constant.Int {
+			if v, ok := constant.Int64Val(x.C); ok && v > 0 {
+				return v
+			}
+		}
+	case sLen:
+		return minLen(st, x.A, depth+1)
+	case sBin:
+		if x.Op == token.ADD {
+			return minInt(st, x.A, depth+1) + minInt(st, x.B, depth+1)
+		}
+	}
+	return 0
+}
+
 // minLen: a lower bound of len(x) under the path facts.
 func minLen(st *pstate, x *Sym, depth int) int64 {
 	if depth > 6 {
@@ -407,6 +468,14 @@ func minLen(st *pstate, x *Sym, depth int) int64 {
 				if sum > m {
 					m = sum
 				}
+			}
+		}
+	}
+	if x.K == sFresh && len(x.Kids) == 1 {
+		// make([]T, n): the length is n
+		if _, ok := x.V.(*ssa.MakeSlice); ok {
+			if v := minInt(st, x.Kids[0], depth+1); v > m {
+				m = v
 			}
 		}
 	}
@@ -493,7 +562,7 @@ func (c *c09ctx) analyseFunc(fn *ssa.Function) {
 			n := c.minLenP(st, bs)
 			if x.Low != nil {
 				b, o := linear(symOf(x.Low))
-				if !(b == "" && o >= 0 && o <= n) {
+				if !(b == "" && o >= 0 && o <= n) && !addendOfMadeLen(bs, symOf(x.Low)) {
 					ok, why = false, fmt.Sprintf("slice low bound %s not proven ≤ len (known len ≥ %d)", symOf(x.Low).Key(), n)
 				}
 			}
